@@ -129,7 +129,7 @@ func (w *Worker) stepMore(s *State, f *Frame, in ssa.Instruction) ([]*State, boo
 					symbolic = true
 				}
 			}
-			if symbolic {
+			if symbolic || sv.K == SOpaque {
 				return w.sliceStrSym(s, f, x, sv)
 			}
 		}
